@@ -395,10 +395,14 @@ func clientScenarios() []*spxScenario {
 					&harness.EnvThread{Name: "server", Steps: []harness.EnvStep{
 						{Kind: "inject", WaitHeaders: 1, Bytes: c19Resp(sc, 3, "first")},
 						{Kind: "inject", WaitHeaders: 2, Bytes: c19Resp(sc, 5, "second")},
+						{Kind: "inject", WaitHeaders: 3, Bytes: c19Resp(sc, 7, "third")},
 					}},
+					// a third request once one of the two has been answered: it reuses the connection's header table
+					&harness.EnvThread{Name: "user", Steps: []harness.EnvStep{{Kind: "spawn-caller", WaitDone: 1, Spec: c19Spec("c", nil)}}},
 					&harness.EnvThread{Name: "server1", Steps: []harness.EnvStep{
 						{Kind: "inject", Conn: 1, Bytes: frames(peer.Settings(peer.Setting{ID: 3, Val: 1}), peer.SettingsAck())},
 						{Kind: "inject", Conn: 1, WaitHeaders: 1, Bytes: c19StaticResp(1, "n1")},
+						{Kind: "inject", Conn: 1, WaitHeaders: 2, Bytes: c19StaticResp(3, "n2")},
 					}},
 				)
 			}
